@@ -59,10 +59,23 @@ def gen_track(pl, seed, nsparse, runs, runlen, nsec):
                 ts += [hi_ + d for d in (-2e-5, -5e-6, 0.0, 2e-6, 5e-6, 1e-5, 2e-5, 1e-4)]
                 break
             t0, prev = t1, cur
+    # the last passage through longitude 0 before J2000 and the days before it (the series' own longitude, a polynomial in
+    # the time from J2000 plus periodic terms, is slightly NEGATIVE there before it is reduced)
+    step = ORB_DAYS.get(pl, 400.0) / 40.0
+    t1, cur = 2451545.0, _pos(pl, 2451545.0, tofk5=False)[0]
+    for _k in range(45):
+        t0 = t1 - step
+        prev = _pos(pl, t0, tofk5=False)[0]
+        if cur < prev - 180.0:
+            ts += [t0 + step * f for f in (0.0, 0.2, 0.4, 0.6, 0.8, 0.9, 0.97, 1.0)] + [t0 - step * f for f in (0.25, 0.5, 1.0)]
+            break
+        t1, cur = t0, prev
+    # the FK5 correction is a matter of the caller's choice: odd-numbered tracks are taken without it
+    fk5 = (seed % 2 == 0)
     for t in sorted(ts):
         try:
             from pymeeus.Epoch import Epoch
-            L, B, R = _pos(pl, t)
+            L, B, R = _pos(pl, t, tofk5=fk5)
             _cls(pl).orbital_elements_j2000(Epoch(t))        # the other element set asked for first: it must not colour this one
             ll, a, ecc, inc, node, arg = _cls(pl).orbital_elements_mean_equinox(Epoch(t))
             yield {"k": "p", "pl": pl, "tf": t, "t": fx(t), "L": fx(L), "B": fx(B), "R": fx(R), "Lf": L,
